@@ -8,7 +8,7 @@ TEXT = {
     "rule": "one evaluation = one delivery of one damaged content through one reader/entry (parse_string exec/eval, "
             "parse_file, generate_tokens over str/iterator/file readers, parser over an iterator reader). Contents come "
             "from the SimDisk fault closure of the base set: every truncation offset (EOF at every instant), single-symbol "
-            "replacements (exhaustive for the small carrier bases), bursts, lost/duplicated/swapped lines, torn overwrites, "
+            "replacements, deletions and insertions (exhaustive for the small carrier bases), bursts, lost/duplicated/swapped lines, torn overwrites, "
             "2-3 combined faults. distinct_nontrivial = distinct damaged contents (by SHA-1, per batch) that differ from "
             "their base. 'Arbitrary character soup' unrelated to any base is not searched.",
     "assumptions": [
